@@ -24,14 +24,16 @@ def _long(name, variant, nodes, threads, flavor='memb', reclaim='mix', seconds=6
       'first enqueues 0-5 nodes and dequeues some of them so that episodes start with and without a dummy at the '
       'head, and at quiescence attempts cds_lfq_destroy_rcu() and drains) decided by the Wing-Gong-Lowe checker '
       'against a FIFO model with unique node ids (program order enforced; budget 2e6 search nodes => inconclusive). '
-      'Direct oracles per episode: destroy returns 0 iff #enqueued == #dequeued (else -EPERM, nothing else), frees '
-      'exactly the head dummy iff 0; after a NULL at quiescence the chain is exactly one dummy with the tail on it; '
+      'Direct oracles per episode: destroy returns 0 iff #enqueued == #dequeued (else -EPERM, nothing else) and '
+      'free()s exactly the dummy node(s) of the chain iff 0 (an empty queue may hold several dummies when concurrent '
+      'dequeuers each enqueued one: key lfq:destroy-eperm-on-empty-queue, defect fixed by 32ee2aa); after a NULL at '
+      'quiescence the chain is exactly one dummy with the tail on it; '
       'a returned node never has the dummy flag, is never returned twice (magic) and carries its payload. Dummy '
       'oracle: the queue_call_rcu given to cds_lfq_init_rcu is an interposer that validates every head (dummy '
       'flag, right queue, not handed twice, no longer q->head, next != NULL, only from dequeue), forwards to the '
       'flavor\'s real call_rcu and runs the library\'s callback from its own (plain builds: poison + quarantine, '
       'canary checked; asan/tsan: really freed); free() inside enqueue/dequeue is a violation (link-time '
-      'malloc/free wrappers); at the end allocated dummies == handed over + freed by destroy + 1 in the queue. '
+      'malloc/free wrappers); at the end allocated dummies == handed over + freed by destroy + left in the queue. '
       '1 episode in 24 is targeted: an enqueuer parked at LFQ_ENQ_LINKED (node linked, tail not advanced), a '
       'dequeuer parked there inside its enqueue_dummy(), or 1-2 dequeuers parked in make_dummy() (between '
       '"head->next == NULL" and the enqueue of the fresh dummy) while the other threads run to completion (stuck-'
